@@ -36,9 +36,14 @@ def do_send(sc, rng):
     try:
         if sc["key"] == "default":
             os.urandom = ks            # ABNF.__init__ binds os.urandom when the frame is created
-            ws, s = connected_ws([])
+        kw = {} if sc["key"] == "default" else {"get_mask_key": ks}
+        if sc.get("via") == "create_connection":
+            from sim.sock import HandshakeSock
+            s = HandshakeSock([])
+            ws = websocket.create_connection("ws://sim.test/", socket=s, suppress_origin=True, **kw)
+            s.hs_mark = len(s.log)
         else:
-            ws, s = connected_ws([], get_mask_key=ks)
+            ws, s = connected_ws([], **kw)
         s.accept = list(sc["accept"]) if sc.get("accept") else None   # short writes apply to frames only
         if sc.get("dispatcher"):
             # the path every WebSocketApp connection takes: writes go through the dispatcher's send()
@@ -151,6 +156,18 @@ def scenarios(tier, rng):
             yield {"api": "send", "op": op, "lcg": [n, n + op + 11], "key": keys[(n + op) % 3]} if op != 1 else \
                   {"api": "send", "op": 1, "text": "t" * n, "key": keys[(n + op) % 3]}
         yield {"api": "send_default", "text": "d" * n, "key": "bytes"}
+    # str payloads with every opcode: always sent as their UTF-8 bytes (continuation fragments of a text message are built this way)
+    for t in ("Zoë", "€uro", "😀", "ascii", ""):
+        for op in (0, 1, 2, 9, 10):
+            for fin in ((0, 1) if op < 8 else (1,)):
+                yield {"api": "send_frame", "op": op, "fin": fin, "text": t, "key": "bytes"}
+        yield {"api": "send", "op": 2, "text": t, "key": "default"}
+        yield {"api": "send", "op": 0, "text": t, "key": "str"}
+    # the same calls on a connection made by create_connection(url, get_mask_key=..., ...) instead of WebSocket(...).connect()
+    for n in (0, 3, 126):
+        for k in ("bytes", "str", "default"):
+            yield {"api": "send", "op": 2, "lcg": [n, n + 5], "key": k, "via": "create_connection"}
+            yield {"api": "ping", "lcg": [min(n, 125), n + 6], "key": k, "via": "create_connection"}
     # short-write patterns
     for n in (1, 5, 126, 300):
         for pat in ([1] * 400, [2, 3, 1, 100], [1, 1000000], [7]):
